@@ -12,23 +12,24 @@ import sys
 LEAN = os.path.join(os.path.dirname(os.path.dirname(os.path.abspath(__file__))), "lean")
 
 # binder type (regex, whole type) → proof term; F = the facts of the schema
+OK = "(schemaOk_of_K _ (family_det _ {hS}) (family_fillOk _ {hS}))"
 GUARDS = [
-    (r"compatTransB S = true", "{F}.compatTrans"),
-    (r"TextLoop S", "{F}.TextLoop"),
-    (r"detB (P\.)?S = true", "{F}.det"),
-    (r"S\.fillersOKB = true", "{F}.fillersOK"),
-    (r"S\.wrapOKB = true", "{F}.wrapOK"),
-    (r"C01\.TextStable S", "{F}.TextStableP"),
-    (r"LeafEmpty S", "(leafEmpty_of_facts {F})"),
-    (r"LiveSchema S", "(liveSchema_of_facts {F})"),
-    (r"∀ w q, \(\(\(S\.dfa w\)\.edgesOf q\)\.map \(·\.1\)\)\.Nodup", "{F}.Det"),
-    (r"∀ w, \(\(\(S\.dfa w\)\.edgesOf 0\)\.map \(·\.1\)\)\.Nodup", "(fun w => {F}.Det w 0)"),
-    (r"Det P\.S", "{F}.Det"),
-    (r"Det S", "{F}.Det"),
-    (r"LeafOk (P\.)?S", "{F}.LeafOk"),
-    (r"SchemaOk (P\.)?S", "{F}.SchemaOk"),
-    (r"(FromDom\.)?TextStable (P\.)?S", "(FromDom.textStable_of_B _ (domFamily_textStable _ hS))"),
-    (r"WrapWF S \(S\.dfa t\) q", "(wrapWF_of_facts {F} t q)"),
+    (r"compatTransB S = true", "(family_compatTrans _ {hS})"),
+    (r"TextLoop S", "(textLoop_of_B _ (family_textLoop _ {hS}))"),
+    (r"detB (P\.)?S = true", "(family_det _ {hS})"),
+    (r"S\.fillersOKB = true", "(family_fillersOK _ {hS})"),
+    (r"S\.wrapOKB = true", "(family_wrapOK _ {hS})"),
+    (r"C01\.TextStable S", "(textLoop_of_B _ (family_textLoop _ {hS})).stable"),
+    (r"LeafEmpty S", "(leafEmpty_of_B (family_leafEmpty _ {hS}))"),
+    (r"LiveSchema S", "(liveSchema_of_ok " + OK + ")"),
+    (r"∀ w q, \(\(\(S\.dfa w\)\.edgesOf q\)\.map \(·\.1\)\)\.Nodup", "(det_of_detB _ (family_det _ {hS}))"),
+    (r"∀ w, \(\(\(S\.dfa w\)\.edgesOf 0\)\.map \(·\.1\)\)\.Nodup", "(fun w => det_of_detB _ (family_det _ {hS}) w 0)"),
+    (r"Det P\.S", "(det_of_detB _ (family_det _ {hS}))"),
+    (r"Det S", "(det_of_detB _ (family_det _ {hS}))"),
+    (r"LeafOk (P\.)?S", "(leafOk_of_B _ (family_leafOk _ {hS}))"),
+    (r"SchemaOk (P\.)?S", OK),
+    (r"(FromDom\.)?TextStable (P\.)?S", "(textStable_of_B _ (family_textStable _ hS))"),
+    (r"WrapWF S \(S\.dfa t\) q", "(wrapWF_of_ok " + OK + " t q)"),
     (r"buildSchema spec = \.ok S", "@BUILD@"),
     (r"compileSchema spec dfas = \.ok S", "@COMPILE@"),
 ]
@@ -115,13 +116,10 @@ def gen(prop):
            "  schemas the library compiles); what remains are the hypotheses about the document / step / DOM at hand.",
            "  Written by tools/gen_family_corollaries.py from the statements in Props/%s.lean." % prop,
            "-/",
-           "import Props.%s" % prop, "import Props.Family",
-           "import Gen.SchemaBuilds" if prop in ("C06", "C07", "C14") else "import Gen.SchemaFacts"]
-    if prop in PARSER_TARGETS:
-        out.append("import Gen.Parsers")
+           "import Props.%s" % prop, "import Props.Family", "@IMPORTS@"]
     out += EXTRA.get(prop, {}).get("imports", [])
     out += ["namespace PM.Family.%s" % prop]
-    out += opens + ["open %s" % ns, "open PM.Gen PM.Family", ""]
+    out += opens + ["open %s" % ns, "open PM.Gen PM.Family PM.FromDom", ""]
     out += EXTRA.get(prop, {}).get("pre", [])
     for name, with_rules in [(n, False) for n in TARGETS[prop]] + [(n, True) for n in PARSER_TARGETS.get(prop, [])]:
         sig = theorem_sig(src, name)
@@ -163,7 +161,7 @@ def gen(prop):
                     concl = re.sub(r"\bdfas\b", "(S.nodes.toList.map (·.dfa))", concl)
                 continue
             if hit is not None:
-                if "domFamily_textStable" in hit:
+                if "family_textStable" in hit:
                     used_dom = True
                 args += [hit] * len(names)
                 continue
@@ -176,16 +174,16 @@ def gen(prop):
                 subject = names[0] + ".S"
                 new_binders.append("@HS@")
         fam = "domFamilySchemas" if used_dom else "familySchemas"
-        F = "(family_facts _ (domFamily_sub _ hS))" if used_dom else "(family_facts _ hS)"
+        HS = "(domFamily_sub _ hS)" if used_dom else "hS"
         if with_rules:
             assert not used_dom and subject == "P.S"
-            F = "(family_facts _ (family_rulesOk P hS).2)"
+            HS = "(family_rulesOk P hS).2"
             new_binders = ["(hS : P ∈ familyParsers)" if b == "@HS@" else b for b in new_binders]
         new_binders = ["(hS : %s ∈ %s)" % (subject, fam) if b == "@HS@" else b for b in new_binders]
         if any("family_compiles" in a for a in args):
             # the automata are those of the compiled schema
             new_binders = [re.sub(r"\bdfas\b", "(S.nodes.toList.map (·.dfa))", b) for b in new_binders]
-        args = [a.format(F=F) for a in args]
+        args = [a.format(hS=HS) if "{hS}" in a else a for a in args]
         out.append("/-- `%s.%s` with its schema guards discharged for the bundled schema family -/" % (ns, name))
         # keep the original line structure of the binders roughly: wrap at ~110 columns
         lines, cur = [], "theorem %s%s" % (name, "_from_schema" if with_rules else "")
@@ -210,21 +208,28 @@ def gen(prop):
         out.append("")
     out += EXTRA.get(prop, {}).get("post", [])
     out.append("end PM.Family.%s" % prop)
+    text = "\n".join(out) + "\n"
+    # only the generated modules this file uses: one per guard (a guard that fails breaks only the checks that use it)
+    used = sorted(set(re.findall(r"\bfamily_([A-Za-z]+) _", text)))
+    imports = ["import Gen.Guards.%s" % (g[0].upper() + g[1:]) for g in used]
+    if "family_builds" in text or "family_compiles" in text:
+        imports.append("import Gen.SchemaBuilds")
+    if "family_rulesOk" in text:
+        imports.append("import Gen.Parsers")
+    text = text.replace("@IMPORTS@", "\n".join(imports or ["import Gen.Schemas"]))
     os.makedirs(os.path.join(LEAN, "Family"), exist_ok=True)
-    open(os.path.join(LEAN, "Family", prop + ".lean"), "w").write("\n".join(out) + "\n")
+    open(os.path.join(LEAN, "Family", prop + ".lean"), "w").write(text)
 
 
 EXTRA["C15"] = {"pre": [
-    "theorem leafEmpty_of_facts {S : Schema} (h : Facts S) : LeafEmpty S := by",
+    "theorem leafEmpty_of_B {S : Schema} (h : leafEmptyB S = true) : LeafEmpty S := by",
     "  intro nt hnt hl",
-    "  have := h.leafEmpty",
-    "  simp only [leafEmptyB, List.all_eq_true, Bool.or_eq_true, Bool.not_eq_eq_eq_not, Bool.not_true] at this",
-    "  rcases this nt hnt with h1 | h1",
+    "  simp only [leafEmptyB, List.all_eq_true, Bool.or_eq_true, Bool.not_eq_eq_eq_not, Bool.not_true] at h",
+    "  rcases h nt hnt with h1 | h1",
     "  · rw [h1] at hl; cases hl",
     "  · exact h1",
     "",
-    "theorem liveSchema_of_facts {S : Schema} (h : Facts S) : LiveSchema S := by",
-    "  have hok := h.SchemaOk",
+    "theorem liveSchema_of_ok {S : Schema} (hok : FromDom.SchemaOk S) : LiveSchema S := by",
     "  intro nt hnt",
     "  obtain ⟨t, ht, rfl⟩ := List.getElem_of_mem hnt",
     "  have ht' : t < S.nodes.size := by simpa using ht",
@@ -234,8 +239,7 @@ EXTRA["C15"] = {"pre": [
     "  have := hok.fill t q hq",
     "  intro hn; rw [hn] at this; cases this",
     "",
-    "theorem wrapWF_of_facts {S : Schema} (h : Facts S) (t q : Nat) : WrapWF S (S.dfa t) q := by",
-    "  have hok := h.SchemaOk",
+    "theorem wrapWF_of_ok {S : Schema} (hok : FromDom.SchemaOk S) (t q : Nat) : WrapWF S (S.dfa t) q := by",
     "  refine ⟨fun e he => (hok.edge t q e he).2, fun nt hnt e he => ?_⟩",
     "  obtain ⟨w, hw, rfl⟩ := List.getElem_of_mem hnt",
     "  have hw' : w < S.nodes.size := by simpa using hw",
